@@ -105,16 +105,16 @@ EXTRA = {
  "C03": " Also: every Read method layered over another reader returns the inner count and passes non-EOF errors on; early bytes buffered before the upgrade are replayed completely; control frames of every legal size are readable and dispatched. No protocol-error return of advanceFrame is compatible with a conformant non-close header (full paths, header alphabet); the end of one message is never reported as the end of a joined stream. Failed frame reads are final (no resynchronisation after a timeout); reader types deliver data through Read only (another exported data-pulling method is reported as undecided); the connection's reader is never reset or replaced. ReadJSON's outcome is the decoder's (nil after a successful Decode, the decoder's own error otherwise); a reader that reported io.EOF is dropped in the same call.",
  "C04": " Also: the 1002 close is sent with a deadline that is now + a positive constant; the violating frame's error reaches readers through every wrapper. A control write that merely timed out does not prevent the later 1002 close. No frame RFC 6455 allows is treated as a violation (full-path accept table).",
  "C05": " Also: reader wrappers (inflate source, JoinMessages, brNetConn) never turn a fault into a clean end or drop bytes delivered with it; default control handlers do not turn write faults into read errors. The read buffer holds a maximal control frame for every buffer configuration; the reader choice in Upgrade strands no buffered bytes. The connection's reader is never reset or replaced; reader types deliver data through Read only.",
- "C06": " Also: the running sum is written only by the frame parser and NextReader's reset; the 1009 close carries a constant reason of at most 123 bytes and a future deadline. Interleaved control frames of legal size never make an in-limit message unreadable (read buffer lower bound). No allocation anywhere in the package is sized from the claimed frame length. ErrReadLimit is produced only by the frame parser (the limit counts wire bytes; no second place re-decides it); a clamped SetReadLimit is accepted.",
+ "C06": " Also: the running sum is written only by the frame parser and NextReader's reset; the 1009 close carries a constant reason of at most 123 bytes and a future deadline. Interleaved control frames of legal size never make an in-limit message unreadable (read buffer lower bound). No allocation anywhere in the package is sized from the claimed frame length. ErrReadLimit is produced only by the frame parser (the limit counts wire bytes; no second place re-decides it); a clamped SetReadLimit is accepted. The 1009 close frame is assembled in memory private to the WriteControl call (a concurrent control write cannot overwrite it).",
  "C07": " Also: destination-size preconditions of base64/hex codecs; candidate loop invariants for counters advanced by non-constant amounts are checked at every back edge. Functions in scope returning (value, error) never return a nil value with a possibly-nil error; the inflater of a message is closed before Conn.reader is cleared.",
  "C08": " Also: the pong/close reply is assembled in call-private memory, sent with a future deadline; every reader a Conn can get holds a maximal control frame. Errors raised under a compressed or joined message reach the application unwrapped; a timed-out control write leaves later replies sendable. Control frames arriving with the handshake reach their handlers: the connection keeps its reader. ReadJSON returns connection errors unwrapped.",
  "C10": " Also: the transport's write deadline is touched only while holding the write lock; a refused control frame leaves no open writer behind. The concurrent-write detector is released on every return of the function that set it. PreparedMessage variants are rendered by WriteMessage, so invalid requests are refused as for WriteMessage. Every error Conn.write returns is recorded as the sticky write error.",
  "C11": " Also: the transport's write deadline is touched only while holding the write lock. Each PreparedMessage variant is rendered in memory of its own; the concurrent-write detector is released on every return. Cached PreparedMessage bytes are immutable after once.Do.",
  "C12": " Also: the default origin policy (shared with C13), the application's Sec-Websocket-Protocol entry is never copied into the reply, quoted-pair handling of the extension parser (pairs of consecutive scanner iterations). No package-level state is written after initialisation (no cache carries one handshake into the next).",
  "C14": " Also: the capture buffer holds exactly 1024 bytes; the challenge-key error is known nil before any network activity. The handshake request is serialised in origin form only (Request.Write, never WriteProxy). No package-level state is written after initialisation (keys, headers and TLS configurations are per call). Caller header entries are stored under their own keys.",
- "C15": " Also: prepared messages are compressed only for connections that negotiated compression; every compression level produces a deflate stream. The client's decision follows the reply alone (no silent skip under its own EnableCompression setting); caller-supplied extension offers are not copied; pooled deflaters are exclusive; extension headers spread over several lines are all parsed. Pooled inflaters are exclusive and a closed wrapper stays closed.",
+ "C15": " Also: prepared messages are compressed only for connections that negotiated compression; every compression level produces a deflate stream. The client's decision follows the reply alone (no silent skip under its own EnableCompression setting); caller-supplied extension offers are not copied; pooled deflaters are exclusive; extension headers spread over several lines are all parsed. Pooled inflaters are exclusive and a closed wrapper stays closed. A connection without compression is returned only on paths that consulted parseExtensions(resp.Header) (every header line).",
  "C17": " Also: newConn calls nothing on a reader it is given. Conn.br is assigned only by newConn and bufio.Reader.Reset is never called on the connection's reader. Whichever reader the connection ends up with holds a maximal control frame.",
- "C18": " Also: the first-hop TLS config is a clone of the caller's; the package never fills the trusted NetDialTLSContext hook itself. Basic proxy credentials use the standard base64 alphabet. The CONNECT header carrying credentials is created per dial; the backend TLS configuration is the caller's Dialer.TLSClientConfig (never swapped in a local copy); no package-level state. The URL the Proxy function returned reaches netDialFn unchanged.",
+ "C18": " Also: the first-hop TLS config is a clone of the caller's; the package never fills the trusted NetDialTLSContext hook itself. Basic proxy credentials use the standard base64 alphabet. The CONNECT header carrying credentials is created per dial; the backend TLS configuration is the caller's Dialer.TLSClientConfig (never swapped in a local copy); no package-level state. The URL the Proxy function returned reaches netDialFn unchanged. Of crypto/tls.Config the library stores only ServerName (who-may-write rule; NextProtos is the one reviewed neutral field): no library-installed session cache, root set or verification switch.",
  "C19": " Also: the {server, uncompressed} rendering is a single frame; the private rendering Conn writes only into memory allocated for that rendering. Cached frame bytes are only returned, sliced, measured or passed to Conn.write; every call of write passes the frame type of the bytes it writes.",
  "C20": " Also: Get/Put on any value of the BufferPool type; functions that open a message for their own use end it on every path; beginMessage considers the previous writer on every return. The pool reaches the connection only through newConn's parameter, which Upgrade/DialContext fill from their configuration; a non-nil error of Write/WriteString/ReadFrom means the message has ended. Conn.writeBuf is assigned only by newConn, beginMessage and endMessage (the buffer taken is the buffer returned).",
 }
